@@ -11,7 +11,7 @@ use crate::refs::wrap::GzFields;
 pub const INFO: CheckInfo = CheckInfo {
     prop: "C14",
     level: "model_checking",
-    rule: "explicit enumeration of (prefix program, branching point, suffix program): for compression, all prefixes up to depth 2 (3) over {deflate with 7 (flush, input, room) shapes incl. 1-byte rooms that leave output pending, params, tune, set-dictionary, prime} on 7 configurations incl. a gzip stream with a 600-byte name (copy mid-header); for decompression, all prefixes up to depth 2 (3) over {inflate with 1-byte / 10-byte / block-wise / 259-byte-room calls that stop mid-header, mid-block and inside a partially copied match, sync, validate, prime} on 5 data sets incl. a corrupt one (copy after an error). At the branching point the stream is duplicated with deflateCopy/inflateCopy and all suffixes up to depth 2 are run in three ways: both streams in alternation, original ended first, copy ended first (allocations are unmapped on free, so any sharing faults). Every call's observables (status, bytes consumed/produced, output bytes, totals, adler, data_type, pending, dictionary) must equal those of the same program run without the copy. Reset: after every prefix, deflateReset / inflateReset / inflateReset2 / the Rust reset methods, then every suffix, compared call by call with a freshly initialised stream with the same parameters. distinct_nontrivial = distinct suffix observation traces.",
+    rule: "explicit enumeration of (prefix program, branching point, suffix program): for compression, all prefixes up to depth 2 (3) over {deflate with 7 (flush, input, room) shapes incl. 1-byte rooms that leave output pending, params, tune, set-dictionary, prime} on 7 configurations incl. a gzip stream with a 600-byte name (copy mid-header); for decompression, all prefixes up to depth 2 (3) over {inflate with 1-byte / 10-byte / block-wise / 259-byte-room calls that stop mid-header, mid-block and inside a partially copied match, sync, validate, prime} on 5 data sets incl. a corrupt one (copy after an error). At the branching point the stream is duplicated with deflateCopy/inflateCopy and all suffixes up to depth 2 are run in three ways: both streams in alternation, original ended first, copy ended first (allocations are unmapped on free, so any sharing faults). Every call's observables (status, bytes consumed/produced, output bytes, totals, adler, data_type, pending, dictionary) must equal those of the same program run without the copy. Reset: after every prefix, deflateReset / inflateReset / inflateReset2 / the Rust reset methods, then every suffix, compared call by call with a freshly initialised stream with the same parameters; and a decoder reset after each of 6 x 5 earlier histories is given every short stream of the R4 corpus (valid and invalid, incl. back-references reaching before the start of the new stream and undefined codes) and compared with a fresh decoder. distinct_nontrivial = distinct suffix observation traces.",
     assumptions: &["prefixes/suffixes deeper than the bound and other argument values are not covered", "a fresh stream 'with the same parameters' uses the level/strategy last set by deflateParams"],
     bound_quick: "prefix depth 2, suffix depth 2",
     bound_thorough: "prefix depth 3, suffix depth 2",
@@ -467,6 +467,96 @@ fn inflate_copy_and_reset(ctx: &mut Ctx, env: &MEnv) {
     }
 }
 
+/// A decoder reused after a reset for a DIFFERENT stream behaves like a fresh one: after each earlier history
+/// (several data sets, stopped at several points) the stream is reset (inflateReset / inflateReset2 to raw mode)
+/// and given each probe of the R4 corpus (valid and invalid programs, in particular back-references reaching
+/// before the start of the new stream, undefined codes, and every H-code shape), whose every observable must equal
+/// that of a freshly initialised decoder. Shared by C14 (reset == fresh) and C10 (no dependence on the earlier
+/// contents of reused internal memory).
+pub fn inflate_reset_probes(ctx: &mut Ctx, env: &MEnv, family: &'static str) {
+    let quick = ctx.quick();
+    let sets = idata();
+    let corp = crate::zgen::base_raw(quick);
+    let probes: Vec<&crate::zgen::Gen> = corp.iter().filter(|g| g.raw.len() <= 80).collect();
+    let prefixes: Vec<Vec<MOp>> = vec![
+        vec![],
+        vec![MOp::Call { flush: Z_NO_FLUSH, inn: usize::MAX, room: AMPLE }],
+        vec![MOp::Call { flush: Z_NO_FLUSH, inn: usize::MAX, room: 259 }],
+        vec![MOp::Call { flush: Z_NO_FLUSH, inn: 100, room: 7 }],
+        vec![MOp::Call { flush: Z_NO_FLUSH, inn: 60, room: AMPLE }, MOp::Call { flush: Z_BLOCK, inn: usize::MAX, room: AMPLE }],
+    ];
+    let stride = if quick { 3 } else { 1 };
+    for (di, ds) in sets.iter().enumerate() {
+        for (pi, prefix) in prefixes.iter().enumerate() {
+            for to_raw in [false, true] {
+                for chunk in 0..stride {
+                    ctx.case(
+                        family,
+                        || format!("earlier history: data={} inflateInit2({}) ; prefix [{}] ; then {} ; every {stride}th probe of the corpus from #{chunk} ({} probes in all) vs a fresh decoder", ds.name, ds.wb, prefix.iter().map(|o| o.tag()).collect::<Vec<_>>().join(" ; "), if to_raw { "inflateReset2(-15)" } else { "inflateReset" }, probes.len()),
+                        |c| unsafe {
+                            let mode = if to_raw { -15 } else { ds.wb };
+                            let kind = if mode < 0 { crate::zgen::WrapKind::Raw } else if mode & 16 != 0 && mode < 32 { crate::zgen::WrapKind::Gzip } else { crate::zgen::WrapKind::Zlib };
+                            let mut a = IMachine::init::<Rs>(ds.wb, &ds.bytes, strm()).map_err(|r| format!("init {r}"))?;
+                            let mut wrapped: Vec<Vec<u8>> = vec![];
+                            for (k, g) in probes.iter().enumerate() {
+                                if (k + di + pi) % stride != chunk {
+                                    continue;
+                                }
+                                let data = g.expected.clone().unwrap_or_default();
+                                wrapped.push(crate::zgen::wrap_stream(&g.raw, &data, kind, 0));
+                            }
+                            let mut h = 0u64;
+                            let mut wi = 0;
+                            for (k, g) in probes.iter().enumerate() {
+                                if (k + di + pi) % stride != chunk {
+                                    continue;
+                                }
+                                // rebuild the earlier history, then reset
+                                let r0 = a.reset::<Rs>(Some(ds.wb));
+                                if r0 != Z_OK {
+                                    return Err(format!("inflateReset2({}) returned {}", ds.wb, rc_name(r0)));
+                                }
+                                a.data = &ds.bytes;
+                                for op in prefix {
+                                    a.step::<Rs>(*op, env);
+                                }
+                                let r = if to_raw { a.reset::<Rs>(Some(-15)) } else { a.reset::<Rs>(None) };
+                                if r != Z_OK {
+                                    return Err(format!("reset returned {}", rc_name(r)));
+                                }
+                                // SAFETY of lifetimes: `wrapped` outlives the machine's use of it (cleared below)
+                                let bytes: &[u8] = &*(wrapped[wi].as_slice() as *const [u8]);
+                                wi += 1;
+                                a.data = bytes;
+                                c.exec();
+                                let mut f = IMachine::init::<Rs>(mode, bytes, strm()).map_err(|r| format!("init {r}"))?;
+                                for (j, op) in I_TAIL.iter().enumerate() {
+                                    let mut oa = a.step::<Rs>(*op, env);
+                                    let mut of = f.step::<Rs>(*op, env);
+                                    if mode < 0 {
+                                        oa.adler = 0;
+                                        of.adler = 0;
+                                    }
+                                    cmp(&format!("probe {} after the reset", g.name), j, op, &oa, &of)?;
+                                    h = mix(h, mix(oa.out_hash, oa.ret as u64));
+                                }
+                                f.end::<Rs>();
+                                c.count("reset_probes", 1);
+                            }
+                            a.data = &ds.bytes;
+                            a.end::<Rs>();
+                            c.outcome(h);
+                            c.nontrivial();
+                            c.validated();
+                            Ok(())
+                        },
+                    );
+                }
+            }
+        }
+    }
+}
+
 fn rust_resets(ctx: &mut Ctx) {
     let data = text(5, 3000);
     for level in [0, 1, 6, 9] {
@@ -526,5 +616,6 @@ pub fn run(ctx: &mut Ctx) {
     deflate_copy(ctx, &env);
     deflate_reset(ctx, &env);
     inflate_copy_and_reset(ctx, &env);
+    inflate_reset_probes(ctx, &env, "inflate-reset-probes");
     rust_resets(ctx);
 }
